@@ -133,6 +133,8 @@ def prepare(ctx, uid, spec, codec, n_values, n_fuzz, rng, fixed_cases=None):
     p.expected = [c09_driver.expected_tokens(spec, spec.index[(m, n)], v) for m, n, v in cases]
     # fuzz inputs
     fuzz = []
+    must_reject = set()      # indices of inputs with a length above the maximum: have to be refused
+    p.must_reject = must_reject
     if n_fuzz:
         by_type = {}
         for (m, n, v), b in zip(cases, pybytes):
@@ -154,6 +156,7 @@ def prepare(ctx, uid, spec, codec, n_values, n_fuzz, rng, fixed_cases=None):
                     r = lib.attempt(compiled.encode, n, ov)
                     if r[0] == 'ok' and len(r[1]) < 100000:
                         fuzz.append((ti, bytes(r[1])))
+                        must_reject.add(len(fuzz) - 1)
     p.fuzz = fuzz
     files = {'ns.h': header, 'ns.c': source, 'driver.c': drv}
     p.unit = c09_cc.Unit(uid, files, 'ns.c', 'driver.c',
@@ -339,6 +342,10 @@ def judge_fuzz(ctx, p, fz, report):
         if len(parts) < 3:
             continue
         tok1 = parts[1]
+        if idx in getattr(p, 'must_reject', ()):
+            report('decoder accepts (%d) an encoding whose length field is above the maximum of the type: struct [%s]' % (
+                r1, tok1[:200]), rep, 'fuzz-over-accepted')
+            continue
         if '!OVER' in tok1:
             report('decoder accepted a length beyond the capacity of the struct: [%s]' % tok1[:200], rep, 'fuzz-over')
             continue
